@@ -144,3 +144,73 @@ Proof.
   - intros [e0 (Hin & Hne & ->)]. exists e0. split; [reflexivity|]. apply filter_In. split; [assumption|].
     destruct e0; [congruence | reflexivity].
 Qed.
+
+(* ---- the directory of a watched file (repair D16) ---- *)
+Lemma lbeq_refl l : lbeq l l = true.
+Proof. induction l as [|x l IH]; cbn; [reflexivity|]. now rewrite beq_refl, IH. Qed.
+
+Lemma lbeq_eq a b : lbeq a b = true <-> a = b.
+Proof.
+  revert b. induction a as [|x a IH]; intros [|y b]; cbn; try (split; [discriminate|discriminate]); [tauto|].
+  rewrite andb_true_iff, beq_eq, IH. split; [intros [-> ->]; reflexivity|intros [= -> ->]; tauto].
+Qed.
+
+Lemma pkey_eqb_refl k : pkey_eqb k k = true.
+Proof. destruct k as [[r c] l]. cbn. now rewrite !Bool.eqb_reflx, lbeq_refl. Qed.
+
+Lemma pkey_eqb_eq a b : pkey_eqb a b = true <-> a = b.
+Proof.
+  destruct a as [[r1 c1] l1], b as [[r2 c2] l2]. cbn. rewrite !andb_true_iff, !Bool.eqb_true_iff, lbeq_eq.
+  split; [intros [[-> ->] ->]; reflexivity|intros [= -> -> ->]; tauto].
+Qed.
+
+(* a declared file is never dropped by the new conjunct: the filter on it is the old filter *)
+Lemma declared_file_still_relevant files exts f :
+  In f files -> watch_filter2 files exts f = watch_filter exts f.
+Proof.
+  intros Hin. unfold watch_filter2, other_in_file_dir.
+  assert (H : existsb (fun f0 => pkey_eqb (pkey f0) (pkey f)) files = true).
+  { apply existsb_exists. exists f. split; [exact Hin|apply pkey_eqb_refl]. }
+  now rewrite H.
+Qed.
+
+(* ... nor is any other spelling of it (same components) *)
+Lemma declared_file_any_spelling files exts f p :
+  In f files -> pkey p = pkey f -> watch_filter2 files exts p = watch_filter exts p.
+Proof.
+  intros Hin Hk. unfold watch_filter2, other_in_file_dir.
+  assert (H : existsb (fun f0 => pkey_eqb (pkey f0) (pkey p)) files = true).
+  { apply existsb_exists. exists f. split; [exact Hin|]. rewrite Hk. apply pkey_eqb_refl. }
+  now rewrite H.
+Qed.
+
+(* a different file in the directory of a declared file never triggers: that directory is watched for the declared file only *)
+Lemma neighbour_of_declared_file_ignored files exts f p d :
+  In f files -> parent_key (pkey f) = Some d -> parent_key (pkey p) = Some d ->
+  (forall f', In f' files -> pkey f' <> pkey p) ->
+  watch_filter2 files exts p = false.
+Proof.
+  intros Hin Hpf Hpp Hne. unfold watch_filter2, other_in_file_dir.
+  assert (H1 : existsb (fun f0 => pkey_eqb (pkey f0) (pkey p)) files = false).
+  { apply not_true_iff_false. intros H. apply existsb_exists in H as [f' [Hf' He]].
+    apply pkey_eqb_eq in He. exact (Hne f' Hf' He). }
+  assert (H2 : existsb (fun f0 => match parent_key (pkey f0), parent_key (pkey p) with
+                                  | Some d0, Some q => pkey_eqb q d0 | _, _ => false end) files = true).
+  { apply existsb_exists. exists f. split; [exact Hin|]. rewrite Hpf, Hpp. apply pkey_eqb_refl. }
+  now rewrite H1, H2.
+Qed.
+
+(* frame: a path whose directory is not the directory of any declared file is filtered exactly as before the repair
+   (in particular with no declared file at all) *)
+Lemma no_declared_file_no_change files exts p :
+  (forall f d q, In f files -> parent_key (pkey f) = Some d -> parent_key (pkey p) = Some q -> q <> d) ->
+  watch_filter2 files exts p = watch_filter exts p.
+Proof.
+  intros Hno. unfold watch_filter2, other_in_file_dir.
+  assert (H2 : existsb (fun f0 => match parent_key (pkey f0), parent_key (pkey p) with
+                                  | Some d0, Some q => pkey_eqb q d0 | _, _ => false end) files = false).
+  { apply not_true_iff_false. intros H. apply existsb_exists in H as [f [Hf He]].
+    destruct (parent_key (pkey f)) as [d|] eqn:Ef; [|discriminate]. destruct (parent_key (pkey p)) as [q|] eqn:Ep; [|discriminate].
+    apply pkey_eqb_eq in He. exact (Hno f d q Hf Ef eq_refl He). }
+  rewrite H2, andb_false_r. reflexivity.
+Qed.
